@@ -199,3 +199,53 @@ Fixpoint na_run (m : rstate) (seen : rstate) (os : list na_op) : list (nat * sta
            match e with Some x => x :: na_run m' seen os' | None => na_run m' seen os' end
       else na_run m seen os'
   end.
+
+(* ---- extensions status path: Extensions.NotifyComponentStatusChange ---------------------------------
+   service.Host.NotifyComponentStatusChange hands every event ACCEPTED by the reporter (the reporter's
+   callback, still under reporter.mu) to Extensions.NotifyComponentStatusChange, which walks
+   extensionIDs (start order) and calls ComponentStatusChanged(source, event) on every extension that
+   implements componentstatus.Watcher — started or not.  [watchers] = those extensions, in order. *)
+Definition notify (watchers : list nat) (e : nat * status) : list (nat * (nat * status)) :=
+  map (fun w => (w, e)) watchers.
+
+Definition watcher_deliveries (watchers : list nat) (evs : list (nat * status)) : list (nat * (nat * status)) :=
+  flat_map (notify watchers) evs.
+
+(* what watcher w was delivered, in order *)
+Definition seen_by (w : nat) (ds : list (nat * (nat * status))) : list (nat * status) :=
+  map snd (filter (fun d => Nat.eqb (fst d) w) ds).
+
+(* ---- PROPOSED REPAIR of finding S3 (NOT the code as it is — props/C11/NOTES.md has the patch) ------
+   hostWrapper drops the ring; it tracks the status its instances hold ([cur2]: it applies the same
+   transition rule to every report it fans out while at least one source is attached) and a late
+   instance is replayed the CANONICAL path from None to that status: Starting first, then the
+   current status (through Stopping if the current status is Stopped). *)
+Definition canon_path (c : status) : list status :=
+  match c with
+  | SNone => []
+  | Starting => [Starting]
+  | Stopped => [Starting; Stopping; Stopped]
+  | c => [Starting; c]
+  end.
+
+Record shared2 := { sources2 : list nat; cur2 : status }.
+Definition shared2_0 : shared2 := {| sources2 := []; cur2 := SNone |}.
+
+Definition sc2_step (h : shared2) (o : sc_op) : shared2 * list (nat * report) :=
+  match o with
+  | ScReport e =>
+      ({| sources2 := sources2 h;
+          cur2 := match sources2 h with [] => cur2 h | _ => fst (transition (cur2 h) e) end |},
+       map (fun i => (i, RStatus e)) (sources2 h))
+  | ScAttach i =>
+      ({| sources2 := sources2 h ++ [i]; cur2 := cur2 h |},
+       map (fun e => (i, RStatus e)) (canon_path (cur2 h)))
+  end.
+
+Fixpoint sc2_run (h : shared2) (os : list sc_op) : list (nat * report) :=
+  match os with
+  | [] => []
+  | o :: os' => let '(h', ls) := sc2_step h o in ls ++ sc2_run h' os'
+  end.
+
+Definition sc2_events (os : list sc_op) : list (nat * status) := snd (rep_run [] (sc2_run shared2_0 os)).
